@@ -81,6 +81,18 @@ type zrState struct {
 func (eng *Engine) initStubs2() {
 	s := eng.stubs
 	eng.initStubsBinary()
+	eng.initStubsHash()
+	s["net.Dial"] = func(e *Exec, _ *frame, fn *ssa.Function, args []Value) Value {
+		if e.dialConn.t == nil {
+			return Tuple{Iface{}, e.sentinelErr("dial: no prepared connection")}
+		}
+		return Tuple{e.dialConn, Iface{}}
+	}
+	s["math/rand.Int31"] = func(e *Exec, _ *frame, _ *ssa.Function, _ []Value) Value {
+		v := e.freshVar("rand", 32)
+		e.Assume(e.tc.Cmp(OpSle, e.tc.BV(0, 32), v))
+		return v
+	}
 	// block.IsAir(s) = IsAirBlock(StateList[s]): bounds check against the registry
 	// size, then membership in the (natively computed) set of air state ids.
 	s[modPath+"/level/block.IsAir"] = func(e *Exec, _ *frame, _ *ssa.Function, args []Value) Value {
